@@ -126,7 +126,7 @@ func checkC16(c C16Case) (nontrivial bool, v *Violation) {
 		return false, pv
 	}
 	shared := config.DeviceConfig{ConfigFile: "verif.toml", ConfigType: "user", Config: cfg} // one value, shared maps
-	newRaceReports()                                                                          // discard anything older
+	newRaceReports()                                                                         // discard anything older
 	curRun.Inflight(c)
 	defer curRun.InflightDone()
 
@@ -330,4 +330,12 @@ func genC16(t *rapid.T) C16Case {
 func TestC16(t *testing.T) {
 	requireMount(t)
 	ReplayOrRapid(t, NewRun(t, "C16"), checkC16, genC16)
+}
+
+func (c C16Case) Sample() interface{} {
+	var devs []string
+	for i, h := range c.Hist {
+		devs = append(devs, fmt.Sprintf("device %d: stream ends %q (delay %d): %s", i, c.Phase[i], c.Delay[i], ledStepsSummary(h)))
+	}
+	return map[string]interface{}{"config": descSummary(c.D), "leds": len(c.LEDs), "devices": devs, "midi-in messages cycling": len(c.Midi)}
 }
